@@ -1701,15 +1701,10 @@ fn evaluate_scalar_func(
                 .downcast_ref::<StringArray>()
                 .ok_or_else(|| QueryError::Type("LPAD requires string argument".into()))?;
             let len_arr = &evaluated_args[1];
-            let pad_char = if evaluated_args.len() > 2 {
-                if let Some(pad_arr) = evaluated_args[2].as_any().downcast_ref::<StringArray>() {
-                    pad_arr.value(0).to_string()
-                } else {
-                    " ".to_string()
-                }
-            } else {
-                " ".to_string()
-            };
+            // the pad string is an ordinary per-row argument (NULL pad gives NULL)
+            let pad_arr: Option<&StringArray> = evaluated_args
+                .get(2)
+                .and_then(|a| a.as_any().downcast_ref::<StringArray>());
 
             let result: StringArray = (0..str_arr.len())
                 .map(|i| {
@@ -1717,6 +1712,11 @@ fn evaluate_scalar_func(
                         None
                     } else {
                         let s = str_arr.value(i);
+                        let pad_char: &str = match pad_arr {
+                            Some(p) if p.is_null(i) => return None,
+                            Some(p) => p.value(i),
+                            None => " ",
+                        };
                         let target_len = get_int_value(len_arr, i).unwrap_or(0) as usize;
                         let current_len = s.chars().count();
                         if current_len >= target_len {
@@ -1744,15 +1744,10 @@ fn evaluate_scalar_func(
                 .downcast_ref::<StringArray>()
                 .ok_or_else(|| QueryError::Type("RPAD requires string argument".into()))?;
             let len_arr = &evaluated_args[1];
-            let pad_char = if evaluated_args.len() > 2 {
-                if let Some(pad_arr) = evaluated_args[2].as_any().downcast_ref::<StringArray>() {
-                    pad_arr.value(0).to_string()
-                } else {
-                    " ".to_string()
-                }
-            } else {
-                " ".to_string()
-            };
+            // the pad string is an ordinary per-row argument (NULL pad gives NULL)
+            let pad_arr: Option<&StringArray> = evaluated_args
+                .get(2)
+                .and_then(|a| a.as_any().downcast_ref::<StringArray>());
 
             let result: StringArray = (0..str_arr.len())
                 .map(|i| {
@@ -1760,6 +1755,11 @@ fn evaluate_scalar_func(
                         None
                     } else {
                         let s = str_arr.value(i);
+                        let pad_char: &str = match pad_arr {
+                            Some(p) if p.is_null(i) => return None,
+                            Some(p) => p.value(i),
+                            None => " ",
+                        };
                         let target_len = get_int_value(len_arr, i).unwrap_or(0) as usize;
                         let current_len = s.chars().count();
                         if current_len >= target_len {
@@ -3426,11 +3426,18 @@ fn evaluate_scalar_func(
                 .as_any()
                 .downcast_ref::<Int64Array>()
                 .ok_or_else(|| QueryError::Type("TO_BASE requires integer argument".into()))?;
-            let radix = get_int_value(&evaluated_args[1], 0).unwrap_or(10) as u32;
+            let radix_arr = &evaluated_args[1];
 
             let result: StringArray = int_arr
                 .iter()
-                .map(|opt| {
+                .enumerate()
+                .map(|(i, opt)| {
+                    // the radix is an ordinary per-row argument (NULL radix gives NULL)
+                    let radix = if radix_arr.is_null(i) {
+                        return None;
+                    } else {
+                        get_int_value(radix_arr, i).unwrap_or(10) as u32
+                    };
                     opt.map(|v| {
                         match radix {
                             2 => format!("{:b}", v),
@@ -3453,14 +3460,18 @@ fn evaluate_scalar_func(
             let operand = get_float_array(&evaluated_args[0])?;
             let low = get_float_array(&evaluated_args[1])?;
             let high = get_float_array(&evaluated_args[2])?;
-            let count = get_int_value(&evaluated_args[3], 0).unwrap_or(1) as f64;
+            let count_arr = &evaluated_args[3];
 
             let result: Int64Array = operand
                 .iter()
                 .zip(low.iter())
                 .zip(high.iter())
-                .map(|((op, lo), hi)| match (op, lo, hi) {
+                .enumerate()
+                .map(|(i, ((op, lo), hi))| match (op, lo, hi) {
+                    // the bucket count is an ordinary per-row argument (NULL count gives NULL)
+                    _ if count_arr.is_null(i) => None,
                     (Some(v), Some(l), Some(h)) => {
+                        let count = get_int_value(count_arr, i).unwrap_or(1) as f64;
                         if v < l {
                             Some(0)
                         } else if v >= h {
